@@ -2,6 +2,7 @@
 import os
 from collections import defaultdict, ChainMap
 from datetime import date, datetime, timezone
+from decimal import Decimal
 from contextlib import contextmanager
 
 from typing import Optional, Dict, Sequence, Mapping, NamedTuple, Set
@@ -69,6 +70,17 @@ class IdManager:
 
 
 SnowfakeryDumper.add_representer(defaultdict, SnowfakeryDumper.represent_dict)
+
+# Decimals (e.g. fake.pydecimal) in just_once rows must survive a continuation file
+# with their type: written as a tagged scalar, read back by yaml.safe_load.
+DECIMAL_YAML_TAG = "!snowfakery_decimal"
+SnowfakeryDumper.add_representer(
+    Decimal,
+    lambda representer, obj: representer.represent_scalar(DECIMAL_YAML_TAG, str(obj)),
+)
+yaml.SafeLoader.add_constructor(
+    DECIMAL_YAML_TAG, lambda loader, node: Decimal(loader.construct_scalar(node))
+)
 
 
 class Dependency(NamedTuple):
